@@ -142,6 +142,10 @@ def transition_task(cls_name, ctype, cone, W, N, prop, tier):
     ex.finalize(replay)
     if any(v.get("reproduced") for v in ex.violations):
         ex.violations = [v for v in ex.violations if v.get("reproduced")]
+        # refuting tables that could not be realised are irrelevant once a reproducing counterexample exists
+        ex.inconclusive = [i for i in ex.inconclusive if "refuting" not in i and "realisation" not in i]
+    elif getattr(ex, "unrealised_cheap", 0):
+        ex.inconclusive.append(f"{ex.unrealised_cheap} refuting tables had no realisation by linear certificates (not examined further)")
     r = ex.result()
     r["config"] = {"cls": cls_name, "region": rtype, "cone": cone, "N": N, "pre_states": len(pres)}
     return r
@@ -151,7 +155,11 @@ def _realise(ex, ctx, name, claim, T, regs, cls_name, ctype, cone, W, alpha, eps
     """stage 2: concrete regions whose exact geometry yields a table violating the claim"""
     K, m = W.shape
     ex.realise_attempts = getattr(ex, "realise_attempts", 0) + 1
-    if ex.realise_attempts > 6:
+    # the linear-certificate attempt is cheap (LRA): it is tried on up to 60 refuting tables; the bilinear Farkas / exact
+    # queries only on the first 4 (refuting tables are often geometrically impossible, e.g. 'covered with slack ε but not
+    # with slack 0', and the realisable ones may come later in the DFS order)
+    cheap_only = ex.realise_attempts > 4
+    if ex.realise_attempts > 60:
         ex.stop_after_candidates = 0   # enough refuting tables examined: stop exploring this harness
         if not getattr(ex, "n_candidates", 0):
             ex.inconclusive.append("realisation budget exhausted without a realised counterexample")
@@ -199,7 +207,7 @@ def _realise(ex, ctx, name, claim, T, regs, cls_name, ctype, cone, W, alpha, eps
             bounds += [c >= -8 for c in zs(r.center)] + [c <= 8 for c in zs(r.center)] + \
                       [sym.to_z3(r.alpha) >= Fraction(1, 8), sym.to_z3(r.alpha) <= 4]
     mdl = None
-    for linear in (True, False):   # linear sufficient certificates first (LRA), then Farkas certificates
+    for linear in ((True,) if cheap_only else (True, False)):   # linear sufficient certificates first (LRA), then Farkas
         A.LINEAR = linear
         try:
             defs, exact = build_defs()
@@ -213,6 +221,9 @@ def _realise(ex, ctx, name, claim, T, regs, cls_name, ctype, cone, W, alpha, eps
             A.LINEAR = False
         if mdl is not None:
             break
+    if mdl is None and cheap_only:
+        ex.unrealised_cheap = getattr(ex, "unrealised_cheap", 0) + 1
+        return
     if mdl is None:
         # no robust realisation: decide with the exact (iff) definitions whether the table is realisable at all
         if exact:
@@ -445,4 +456,10 @@ def tasks_for(prop, tier, seed):
         ts.append({"id": f"{cls}[{(ct or '')[5:9]},{cone},N={N}]", "fn": "transition_task",
                    "args": {"cls_name": cls, "ctype": ct, "cone": cone, "W": W.tolist(), "N": N, "prop": prop, "tier": tier},
                    "weight": 10 ** (N - 2)})
+        if prop != "C11" and cls != "VOGP_AD":
+            # the two-design instance as well: refuting tables are realised far more easily there (with three designs
+            # most refuting tables are geometrically impossible, e.g. two regions pessimistically dominating each other)
+            ts.append({"id": f"{cls}[{(ct or '')[5:9]},{cone},N=2]", "fn": "transition_task",
+                       "args": {"cls_name": cls, "ctype": ct, "cone": cone, "W": W.tolist(), "N": 2, "prop": prop, "tier": tier},
+                       "weight": 1})
     return ts
